@@ -501,6 +501,24 @@ def gen_docs(ctx, rng, n):
         inner = "<%s%s>%s</%s>" % (name, (' xmlns="%s"' % ns) if ns else "", t, name)
         tail = '<%s xmlns="%s">%s</%s>' % (root, rns, inner, root)
         cs += doc_cases(tail.encode(), lang, w, xml_doc(lang, tail), kind="doc_binary_tag")
+        # several content items in a binary-flagged element (/repo 093ad9f: every item is binary, not only the first)
+        if i % 3 == 1:
+            a, b2 = rand_bytes(rng)[:40], rand_bytes(rng)[:40]
+            if i % 2:
+                a = a[:(len(a) // 3) * 3] or b"abc"          # first item without '=' padding
+            pre = HDR[lang] + (bytes([0, rp]) if rp else b"") + bytes([rt | 0x40]) + (bytes([0, page]) if page != rp else b"") + bytes([tok | 0x40])
+            # (i) two adjacent OPAQUE items: the tree holds one text, XML shows the base64 of the concatenation
+            w2 = pre + opaque(a) + opaque(b2) + bytes([1, 1])
+            alt = (pre + opaque(a + b2) + bytes([1, 1]))[len(HDR[lang]):]
+            cs.append(Case("P", "w2x 0 " + hx(w2), ("bin_texts", name, [a + b2]), "doc_binary_items_adjacent_w2x", model=False,
+                           meta=("xback", ("bytes_tail_any", [alt, w2[len(HDR[lang]):]]))))
+            cs.append(Case("P", "w2w 0 " + hx(w2), ("bytes_tail_any", [alt, w2[len(HDR[lang]):]]), "doc_binary_items_adjacent_w2w", model=False))
+            # (ii) text, child element, text (ActiveSync MIME with an empty SmartReply child): each item its own base64
+            pre3 = HDR[L_ACTIVESYNC] + bytes([0, 0x15, 0x45, 0x50])
+            w3 = pre3 + opaque(a) + bytes([0x07]) + opaque(b2) + bytes([1, 1])
+            cs.append(Case("P", "w2x 0 " + hx(w3), ("bin_texts", "MIME", [a, b2]), "doc_binary_items_mixed_w2x", model=False,
+                           meta=("xback", ("bytes_tail", w3[len(HDR[L_ACTIVESYNC]):]))))
+            cs.append(Case("P", "w2w 0 " + hx(w3), ("bytes_tail", w3[len(HDR[L_ACTIVESYNC]):]), "doc_binary_items_mixed_w2w", model=False))
         # the same text folded over lines, as the project's own sample does, must give the same opaque
         if i % 4 == 0 and len(t) > 8:
             folded = "\n  " + t[:5] + "\n  " + t[5:] + "\n"
@@ -549,6 +567,18 @@ def judge(c, ans):
         return None if m and wv_value(m.group(1)) == o[2] else "XML date-time does not denote %r" % (o[2],)
     if tag == "bytes":
         return None if body == o[1] else "expected wbxml " + o[1].hex()[:200]
+    if tag == "bytes_tail_any":
+        return None if any(body.endswith(x) and len(body) > len(x) for x in o[1]) else "expected wbxml ending in " + o[1][0].hex()[:200]
+    if tag == "bin_texts":      # the text items directly inside <name>..</name> are the base64 of these byte strings, in order
+        m = re.search(rb"<%s(?: [^>]*)?>(.*)</%s>" % (o[1].encode(), o[1].encode()), body, re.S)
+        if not m:
+            return "element %s not found in the XML" % o[1]
+        texts = [x for x in re.split(rb"<[^>]*>", m.group(1)) if x != b""]
+        try:
+            got = [base64.b64decode(x, validate=True) for x in texts]
+        except Exception:
+            return "text of %s is not base64: %r" % (o[1], texts[:3])
+        return None if got == list(o[2]) else "binary items %r, expected %r" % ([g.hex() for g in got][:3], [g.hex() for g in o[2]][:3])
     if tag == "bytes_tail":
         return None if body.endswith(o[1]) and len(body) > len(o[1]) else "expected wbxml ending in " + o[1].hex()[:200]
     return "bad oracle"
@@ -648,6 +678,10 @@ def thorough_cases(ctx, rng):
 
 # pending findings (none): list of (kind, input line) the check would report as KNOWN-FINDING instead of a violation
 PENDING = []
+# pending finding (reported to the coordinator, see DEFECTS.md): XML->WBXML of a binary-flagged element with mixed content
+# (text, child element, text) caches all text until the end tag: the text moves behind the child and everything after the
+# first '=' padding is dropped.  Key proposal: binary-tag-mixed-content-xml2wbxml
+PENDING_KINDS = {"doc_binary_items_mixed_w2x_and_back": "binary-tag-mixed-content-xml2wbxml"}
 
 
 def run(ctx):
@@ -732,6 +766,15 @@ def run(ctx):
     crashes += cr
     cases += bcases
     cans += ba
+    # ... and every XML the C produced for the multi-item binary documents goes back through XML->WBXML
+    xback = [(i, c) for i, c in enumerate(cases) if isinstance(c.meta, tuple) and c.meta and c.meta[0] == "xback" and (cans[i] or "").startswith("ok ")]
+    xcases = [Case("P", "x2w " + cans[i][3:], c.meta[1], c.kind + "_and_back", model=False) for i, c in xback]
+    xa, cr = common.run_lines(hp, [c.line for c in xcases])
+    for c in cr:
+        c["harness"] = "P"
+    crashes += cr
+    cases += xcases
+    cans += xa
     midx = [i for i, c in enumerate(cases) if c.model]
     mans = [None] * len(cases)
     a, mcr = common.run_lines(driver, [cases[i].line for i in midx])
@@ -828,9 +871,16 @@ def run(ctx):
                                             "every zone x every second; every year 0..4095; all 256 code pages in the dispatch probe")
 
     # pending findings
-    pend = [v for v in concrete if (v.get("kind"), v.get("input")) in PENDING]
+    pend = [v for v in concrete if (v.get("kind"), v.get("input")) in PENDING or v.get("kind") in PENDING_KINDS]
+    seen_keys = set()
     for v in pend:
-        print("KNOWN-FINDING: property=C12 pending %s %s" % (v.get("kind"), v.get("input")), flush=True)
+        key = PENDING_KINDS.get(v.get("kind"), v.get("kind"))
+        if key in seen_keys:
+            continue
+        seen_keys.add(key)
+        if not ctx.report_known(key):       # not (yet) registered in known_findings.json: print it ourselves
+            print("KNOWN-FINDING: property=C12 pending %s: %s (first input %s)" % (key, v.get("why", "")[:120], str(v.get("input"))[:120]), flush=True)
+    ctx.coverage["pending_findings"] = {k: sum(1 for v in pend if PENDING_KINDS.get(v.get("kind"), v.get("kind")) == k) for k in seen_keys}
     concrete = [v for v in concrete if v not in pend]
 
     step = max(1, len(cases) // 14)
